@@ -26,6 +26,9 @@ pub enum FrameSpec {
     Tiny(u8, u8),
     /// IS_VER reporting this InSim version
     Ver(u8),
+    /// IS_VER reporting this InSim version in a frame that announces 1..3 words more than the 20 bytes of today's layout
+    /// (a later protocol version appending fields)
+    VerLong(u8, u8),
     /// a maximum-size frame
     Big(u8),
     /// a frame of a known type that is shorter than that type needs (4 or 8 bytes): a decode error on its own
@@ -106,6 +109,13 @@ pub fn frame_bytes(f: &FrameSpec, mode: &Mode) -> Vec<u8> {
             }
             v
         },
+        FrameSpec::VerLong(v, extra) => {
+            let mut f = frame_bytes(&FrameSpec::Ver(*v), mode);
+            let words = 1 + (*extra as usize % 3);
+            f.extend(std::iter::repeat(0u8).take(4 * words));
+            f[0] = size_byte(mode, f.len());
+            f
+        },
         FrameSpec::Long(ty, reqi, fourth, extra) => {
             let words = 2 + (*extra as usize % 3);
             let mut v = vec![size_byte(mode, 4 * words), *ty, *reqi, *fourth];
@@ -136,7 +146,7 @@ pub fn frame_strategy(keepalive_weight: u32, ver_weight: u32) -> impl Strategy<V
         2 => any::<u8>().prop_map(FrameSpec::BadEnum),
         keepalive_weight => Just(FrameSpec::KeepAlive),
         3 => (any::<u8>(), prop_oneof![Just(0u8), any::<u8>()]).prop_map(|(a, b)| FrameSpec::Tiny(a, b)),
-        ver_weight => prop_oneof![Just(9u8), any::<u8>()].prop_map(FrameSpec::Ver),
+        ver_weight => prop_oneof![3 => prop_oneof![Just(9u8), any::<u8>()].prop_map(FrameSpec::Ver), 1 => (prop_oneof![Just(9u8), any::<u8>()], any::<u8>()).prop_map(|(v, e)| FrameSpec::VerLong(v, e))],
         1 => any::<u8>().prop_map(FrameSpec::Big),
         2 => (any::<u8>(), any::<u8>()).prop_map(|(a, b)| FrameSpec::Short(a, b)),
         2 => (any::<u8>(), any::<u8>()).prop_map(|(a, b)| FrameSpec::UnterminatedText(a, b)),
